@@ -18,6 +18,7 @@ import (
 	"github.com/biogo/biogo/seq/linear"
 	"github.com/biogo/biogo/seq/multi"
 	"verif/h/enum"
+	"verif/h/seqgen"
 )
 
 type rowDef struct {
@@ -661,7 +662,7 @@ func search(c *enum.Ctx, base kase, depth int, states, trans, traces *atomic.Int
 }
 
 func run(c *enum.Ctx) {
-	c.Rule("initial objects: linear.Seq/QSeq for every letter string of length 0..3 (algebra-only for 4..5) over paired letters {a,c,G,n,-} (and RNA/redundant alphabets on fixed words), alignment.Seq/QSeq grids 1..3 rows x 0..4 columns, multi.Multi with every layout of 1..3 rows (offsets 0..2, lengths 1..3; plain and quality rows), multi.Set; then breadth-first search over operation sequences of depth <=3 (thorough 4; linear 4/5) over {RevComp, Reverse, Clone-and-continue-on-copy, Clone-and-keep, Set first, Set last, SetOffset, Delete row, Append (the letter depends on the step), go-on-with-the-other-copy, RevComp of the first / last row through its row view, Reverse of the first row}; linear sequences also start emptied (length 0 over storage of two letters); after every operation the object's snapshot (row names, coordinates, strands, letters, qualities) is related to the previous one and every retained clone/original must be unchanged; states de-duplicated on the snapshot of the object plus retained copies (first two levels unmerged); non-trivial = every applicable operation sequence")
+	c.Rule("initial objects: linear.Seq/QSeq for every letter string of length 0..3 (algebra-only for 4..5) over paired letters {a,c,G,n,-} (and RNA/redundant alphabets on fixed words), alignment.Seq/QSeq grids 1..3 rows x 0..4 columns, multi.Multi with every layout of 1..3 rows (offsets 0..2, lengths 1..3; plain and quality rows), multi.Set; then breadth-first search over operation sequences of depth <=3 (thorough 4; linear 4/5) over {RevComp, Reverse, Clone-and-continue-on-copy, Clone-and-keep, Set first, Set last, SetOffset, Delete row, Append (the letter depends on the step), go-on-with-the-other-copy, RevComp of the first / last row through its row view, Reverse of the first row}; three-row Multi layouts with an empty row; the size ladder 7..4097 (thorough 16385) - every 2^k-1, 2^k, 2^k+1 letters / columns / row length - for every kind under nine fixed operation lists; linear sequences also start emptied (length 0 over storage of two letters); after every operation the object's snapshot (row names, coordinates, strands, letters, qualities) is related to the previous one and every retained clone/original must be unchanged; states de-duplicated on the snapshot of the object plus retained copies (first two levels unmerged); non-trivial = every applicable operation sequence")
 	c.Assume("column-stored alignments are used at offset 0 (their column accessors take raw indices)", "single Reverse is checked against its documented meaning (letters reversed); Multi row coordinates after Reverse are not constrained")
 	depthLin, depthOther := 4, 3
 	if !c.Quick {
@@ -747,13 +748,56 @@ func run(c *enum.Ctx) {
 			jobs = append(jobs, job{kase{Kind: "set", Alpha: "DNA", Rows: l}, depthOther})
 		}
 	}
+	// layouts of three rows one of which is EMPTY (a row of length zero has an offset all the same)
+	for _, l := range layouts {
+		if len(l) != 2 {
+			continue
+		}
+		for pos := 0; pos <= 2; pos++ {
+			for off := 0; off <= 2; off++ {
+				if (pos+off+len(l[0].Letters))%2 == 1 && c.Quick {
+					continue
+				}
+				w := append(append(append([]rowDef{}, l[:min(pos, 2)]...), rowDef{off, ""}), l[min(pos, 2):]...)
+				for _, kind := range []string{"multi", "mqulti"} {
+					jobs = append(jobs, job{kase{Kind: kind, Alpha: "DNA", Rows: w}, 2})
+				}
+			}
+		}
+	}
+	// the size ladder: one object of every kind at every size 2^k-1, 2^k, 2^k+1 (columns of an alignment,
+	// letters of a sequence, two ragged rows of that length), a handful of fixed operation lists
+	top := 4097
+	if !c.Quick {
+		top = 16385
+	}
+	for _, n := range enum.Ladder(7, top) {
+		w := seqgen.Fill("acGt-", n)
+		w2 := seqgen.Fill("ca-Gt", n)
+		for _, kind := range []string{"lseq", "lqseq", "aseq", "aqseq", "multi", "mqulti"} {
+			rows := []rowDef{{0, w}}
+			switch kind {
+			case "aseq", "aqseq":
+				rows = []rowDef{{0, w}, {0, w2}}
+			case "multi", "mqulti":
+				rows = []rowDef{{0, w}, {1, w2[:n-3]}}
+			}
+			jobs = append(jobs, job{kase{Kind: kind, Alpha: "DNAgapped", Rows: rows}, -1})
+		}
+	}
+	// a Multi of two rows of 8200 letters (thorough: more) - beyond any per-row work threshold
+	jobs = append(jobs, job{kase{Kind: "multi", Alpha: "DNAgapped", Rows: []rowDef{{0, seqgen.Fill("acGt-", 8200)}, {2, seqgen.Fill("ca-Gt", 8200)}}}, -1})
 	var states, trans, traces atomic.Int64
 	enum.Parallel(len(jobs), func(i int) {
 		nt := enum.NontrivialSet{}
 		j := jobs[i]
 		j.k.slot = i
-		if j.depth == 0 {
-			for _, ops := range [][]string{{"RC", "RC"}, {"RV", "RV"}, {"CL", "RC", "S0"}, {"CK", "RV", "SL"}} {
+		if j.depth <= 0 {
+			lists := [][]string{{"RC", "RC"}, {"RV", "RV"}, {"CL", "RC", "S0"}, {"CK", "RV", "SL"}}
+			if j.depth < 0 {
+				lists = append(lists, []string{"CK", "RC", "RC"}, []string{"CL", "SL", "SW", "S0"}, []string{"CK", "R0"}, []string{"CL", "V0", "RC"}, []string{"RC", "CK", "AP", "RV"})
+			}
+			for _, ops := range lists {
 				k := j.k
 				k.Ops = ops
 				c.Eval()
